@@ -105,6 +105,25 @@ def forbidden_scan(files=None):
     return hits
 
 
+def coq_closure(prop_mod):
+    """Source files Props/<prop_mod>.v transitively depends on (via `From Aelys Require ...`)."""
+    seen, todo = set(), [os.path.join(COQ, "Props", prop_mod + ".v")]
+    pat = re.compile(r"(From\s+Aelys\s+)?Require\s+(?:Import\s+|Export\s+)?(.*?)\.(?=\s|$)", re.S)
+    while todo:
+        p = todo.pop()
+        if p in seen or not os.path.exists(p):
+            continue
+        seen.add(p)
+        txt = strip_coq_comments(open(p, encoding="utf-8").read())
+        for m in pat.finditer(txt):
+            for mod in m.group(2).split():
+                if m.group(1):
+                    todo.append(os.path.join(COQ, *mod.split(".")) + ".v")
+                elif mod.startswith("Aelys."):
+                    todo.append(os.path.join(COQ, *mod.split(".")[1:]) + ".v")
+    return sorted(seen)
+
+
 def coq_make(targets, timeout=1500):
     """Full .vo build of the given targets (relative to coq/), under the coq lock."""
     with Lock("coq"):
@@ -329,7 +348,7 @@ class Ctx:
             if m:
                 self.broken.append(f"coq:first error at {m[0][0]}:{m[0][1]}")
             return False
-        hits = forbidden_scan()
+        hits = forbidden_scan(coq_closure(prop_mod))
         if hits:
             self.broken.append("audit:forbidden " + "; ".join(hits[:5]))
             self.log("forbidden constructs:", hits[:5])
